@@ -380,9 +380,23 @@ def rand_leaf(rng, aps):
     return ('ap', rng.choice(aps))
 
 
-def rand_nary(rng, t, gen):
+def rand_nary(rng, t, gen, allow1=False):
+    """or/and node: 2 operands (80%) or 3; with a small probability the node is WIDE (4-9 operands): the operands beyond the
+    first two are leaves (atoms that occur in the generated operands, true, false), so that the formula stays small while an
+    operand in position >= 4 exists.  allow1 (only for checks that neither print nor parse the formula): a node with ONE
+    operand with a small probability."""
     k = 2 if rng.random() < 0.8 else 3
-    return (t,) + tuple(gen() for _ in range(k))
+    x = rng.random()
+    if allow1 and x > 0.97:
+        return (t, gen())
+    ops = [gen() for _ in range(k)]
+    if x < 0.05:
+        w = rng.randint(4, 9) if x < 0.02 else rng.randint(4, 5)
+        neutral, absorbing = (('false',), ('true',)) if t == 'or' else (('true',), ('false',))
+        leaves = [('ap', a) for a in sorted(set(a for g in ops for a in fatoms(g)))] * 3 + [neutral, neutral, absorbing]
+        ops = ops[:2] + [rng.choice(leaves) for _ in range(w - 2)]
+        rng.shuffle(ops)
+    return (t,) + tuple(ops)
 
 
 def rand_ctl(rng, d, aps=('p', 'q')):
